@@ -316,6 +316,14 @@ def spell_variants(path, tier, rnd):
     add("dup-slash-inner", join(segs[:npre]) + "//" + "/".join(segs[npre:]))
     if len(segs) > 1:
         add("dup-slash-inner", join(segs[:-1]) + "//" + segs[-1])
+    # ... and at every other segment boundary, in particular inside the prefix the middleware's regexes look at
+    for b in range(1, len(segs)):
+        if b < npre and "c16-no-such-route" in path:
+            # the probe of the free-tail page route /rnacos/{_:.*}: a spelling that leaves the /rnacos/v1/ prefix lands on the same
+            # static page shell, which is outside the protected prefixes and serves no data
+            continue
+        add("dup-slash-in-prefix" if b < npre else "dup-slash-inner", join(segs[:b]) + "//" + "/".join(segs[b:]))
+        add("dot-segment-in-prefix" if b < npre else "dot-segment", join(segs[:b]) + "/./" + "/".join(segs[b:]))
     # dot segments
     add("dot-segment", "/." + path)
     add("dot-segment", join(segs[:npre]) + "/./" + "/".join(segs[npre:]))
